@@ -499,6 +499,13 @@ impl Report {
                             cases: n,
                             failure_persistence: None,
                             max_shrink_iters: 4000,
+                            // Shrinking a failing case that builds a repository per step is
+                            // bounded by time as well (the reported case is then small, not
+                            // necessarily minimal).
+                            max_shrink_time: std::env::var("JJVERIF_MAX_SHRINK_MS")
+                                .ok()
+                                .and_then(|v| v.parse().ok())
+                                .unwrap_or(240_000),
                             max_global_rejects: 65536,
                             ..Config::default()
                         };
